@@ -53,14 +53,17 @@ def repo_status():
         return ""
 
 
-def build(pid, cfg, race):
+def build(pid, cfg, race, pkg=None):
+    """builds the test binary of the property's package (or of `pkg`: a test of
+    another property's package run as part of this check, e.g. under -race)"""
     out = os.path.join(BUILD, pid)
     os.makedirs(out, exist_ok=True)
-    binp = os.path.join(out, "t.race.test" if race else "t.test")
+    name = "t" if pkg in (None, cfg["pkg"]) else "t." + os.path.basename(pkg)
+    binp = os.path.join(out, name + (".race.test" if race else ".test"))
     cmd = ["go", "test", "-c", "-tags", "verif", "-o", binp]
     if race:
         cmd.append("-race")
-    cmd.append("./" + cfg["pkg"])
+    cmd.append("./" + (pkg or cfg["pkg"]))
     p = subprocess.run(cmd, cwd=HARNESS, env=goenv(), capture_output=True, text=True)
     if p.returncode != 0:
         sys.stderr.write("BUILD FAILED\n" + p.stdout + p.stderr)
@@ -283,6 +286,13 @@ def main():
     binp = build(pid, cfg, race)
     if binp is None:
         return 2
+    bins = {(cfg["pkg"], race): binp}
+    for test in cfg["tests"]:
+        key = (test.get("pkg", cfg["pkg"]), bool(test.get("race", race)))
+        if key not in bins:
+            bins[key] = build(pid, cfg, key[1], key[0])
+            if bins[key] is None:
+                return 2
     workroot = os.path.join(BUILD, pid, "work-" + tier)
     os.makedirs(workroot, exist_ok=True)
     replay_dir = os.path.join(ROOT, "replays", "found", pid)
@@ -296,6 +306,9 @@ def main():
         with open(replay) as f:
             rf = json.load(f)
         test = rf.get("test")
+        for t in cfg["tests"]:
+            if t["name"] == test:
+                binp = bins[(t.get("pkg", cfg["pkg"]), bool(t.get("race", race)))]
         env = goenv()
         env.update({"VERIF_REPLAY": os.path.abspath(replay), "VERIF_TIER": tier, "VERIF_KNOWN": ",".join(known_ids),
                     "VERIF_REPLAY_DIR": os.path.join(workroot, "replay-out")})
@@ -330,7 +343,8 @@ def main():
     results = []
     maxw = min(NPROC, cfg.get("max_workers", NPROC))
     with cf.ThreadPoolExecutor(max_workers=maxw) as ex:
-        futs = [ex.submit(shard_job, pid, binp, t, idx, s, checks, tier, known_ids, workroot, limit, extra, replay_dir)
+        futs = [ex.submit(shard_job, pid, bins[(t.get("pkg", cfg["pkg"]), bool(t.get("race", race)))], t, idx, s, checks, tier,
+                          known_ids, workroot, limit, extra, replay_dir)
                 for (t, idx, s, checks, limit, extra) in jobs]
         for fu in futs:
             results.append(fu.result())
